@@ -145,6 +145,63 @@ def r08_14(chk, P, rule='R08.14'):
     return n
 
 
+def r08_15(chk, P, rule='R08.15'):
+    chk.rule(rule, 'a page\'s granule position is consulted only for a page of the stream at hand: in vorbisfile.c every call of '
+             'ogg_page_granulepos on a page object is reached only through a branch that compared ogg_page_serialno of the same page '
+             'object for equality (the true edge of ==, the false edge of !=, also as the first operand of &&; a `continue` filter '
+             'counts), or stands next to a capture of that page\'s serial number in the same block (the pair is returned together and '
+             'compared by the caller).  In a multiplexed file the pages of other logical streams carry granule positions of their '
+             'own; taken for this stream\'s they become a link\'s initial offset, a bisection bound or a seek landing point')
+    from rules import pagestate
+    n = 0
+    for F in P.functions():
+        if not F.file.endswith('vorbisfile.c') or F.entry is None:
+            continue
+        sites = sorted(F.calls('ogg_page_granulepos'), key=lambda x: F.ex[x].get('loc') or [0, 0])
+        for i, c in enumerate(sites):
+            args = F.ex[c].get('c', [])
+            pv = pagestate._addr_of_var(F, args[0]) if args else None
+            if pv is None:
+                continue
+
+            sdefs = common.single_defs(F)
+
+            def serial_of_same_page(e, depth=0):
+                nd = F.ex[F.strip_casts(e)]
+                if nd['k'] == 'ref' and nd['decl'].get('kind') == 'var' and nd['decl'].get('id') in sdefs and depth < 2:
+                    # `long s=ogg_page_serialno(&og); if(s!=serialno)continue;` (the page must not be refilled in between: R03.9)
+                    return serial_of_same_page(sdefs[nd['decl']['id']], depth + 1)
+                return nd['k'] == 'call' and nd['callee'].get('d') == 'ogg_page_serialno' and nd.get('c') and \
+                    pagestate._addr_of_var(F, nd['c'][0]) == pv
+            ok = False
+            how = ''
+            for cnd, pol in common.controlling_conditions(F, c):
+                cn = F.ex[F.strip_casts(cnd)]
+                if cn['k'] == 'bin' and cn['op'] in ('==', '!=') and ((cn['op'] == '==') == pol) and \
+                        (serial_of_same_page(cn['c'][0]) or serial_of_same_page(cn['c'][1])):
+                    ok, how = True, f'after `{F.s(cnd)}` ({"true" if pol else "false"} edge)'
+            if not ok:
+                b0 = F.pos[c][0]
+                for e in F.pos:
+                    if F.pos[e][0] != b0:
+                        continue
+                    nd = F.ex[e]
+                    src = None
+                    if nd['k'] == 'assign' and nd['op'] == '=':
+                        src = nd['c'][1]
+                    elif nd['k'] == 'decl':
+                        for v in nd['vars']:
+                            if v.get('init') and serial_of_same_page(v['init']):
+                                src = v['init']
+                    if src is not None and serial_of_same_page(src):
+                        ok, how = True, 'the serial number of the same page is captured next to it'
+            chk.ob(rule, F.name, f'granulepos-of-a-matched-page#{i}', ok, F.where(c), how if ok else
+                   f'`{F.s(c)}` is reachable for a page whose serial number was not compared: a page of another logical stream '
+                   'can supply the position')
+            n += 1
+    return n
+
+
 def r08_5(chk, P, E):
     chk.rule('R08.5', 'in ov_raw_seek, ov_pcm_seek_page, ov_pcm_seek and the lap helpers that wrap them (file-local functions that call a seek through a function-pointer parameter) no store to the handle and no call writing it happens '
              'before the position argument has been range-checked on that path (compared against a lower and an upper '
@@ -499,6 +556,8 @@ def run(chk, P):
     chk.floor('R08.5', 2)
     r08_14(chk, P)
     chk.floor('R08.14', 5)
+    r08_15(chk, P)
+    chk.floor('R08.15', 4)
     r08_8(chk, P)
     chk.floor('R08.8', 1)
     r08_9(chk, P)
